@@ -45,8 +45,9 @@ MC_INIT
         return std::unique_ptr<mc::Model>(new c02::MapModel<igris::flat_map<int, int>, StdMapRef>("flat_map", mc::thorough() ? 3 : 2, 3, true));
     });
     // two maps A, B with copy/move between them
-    if (mc::thorough())
-        mc::add_bfs("flat_map_pair", [] { return std::unique_ptr<mc::Model>(new c02::MapModel<igris::flat_map<int, int>, StdMapRef>("flat_map", 2, 2, false)); });
+#if TIER_THOROUGH // the tier is not known yet when the registration code runs: build.sh passes it
+    mc::add_bfs("flat_map_pair", [] { return std::unique_ptr<mc::Model>(new c02::MapModel<igris::flat_map<int, int>, StdMapRef>("flat_map", 2, 2, false)); });
+#endif
     mc::add_bfs("flat_set", [] {
         return std::unique_ptr<mc::Model>(new c02::SetModel<igris::flat_set<int>, StdSetRef, true>("flat_set", mc::thorough() ? 4 : 3));
     });
